@@ -103,6 +103,55 @@ def showSieveResp : Sieve.Resp → String
   | .script sc => "SCRIPT:" ++ showNats sc
   | .list names => "LIST:" ++ ";".intercalate (names.map (fun p => showNats p.1 ++ "=" ++ (if p.2 then "1" else "0")))
 
+def dotNats (s : String) : List Nat := if s == "-" then [] else (s.splitOn ".").filterMap String.toNat?
+
+/-- prefix-notation search key: returns the key and the remaining tokens -/
+def parseKey : Nat → List String → Option (Search.Key × List String)
+  | 0, _ => none
+  | _ + 1, [] => none
+  | fuel + 1, tok :: rest =>
+    match tok with
+    | "all" => some (.all, rest)
+    | "seq" => match rest with | s :: r => some (.seqset false (parseSet s), r) | _ => none
+    | "uid" => match rest with | s :: r => some (.seqset true (parseSet s), r) | _ => none
+    | "flag" => match rest with | f :: e :: r => some (.flag f.toNat! (e == "1"), r) | _ => none
+    | "new" => some (.new_ 9 0, rest)
+    | "idate" => match rest with | o :: d :: r => some (.idate o.toNat! (Int.ofNat d.toNat!), r) | _ => none
+    | "sdate" => match rest with | o :: d :: r => some (.sdate o.toNat! (Int.ofNat d.toNat!), r) | _ => none
+    | "size" => match rest with | l :: n :: r => some (.size (l == "1") n.toNat!, r) | _ => none
+    | "text" => match rest with | i :: r => some (.text i.toNat!, r) | _ => none
+    | "not" => match parseKey fuel rest with | some (k, r) => some (.not k, r) | none => none
+    | "or" => match parseKey fuel rest with
+      | some (a, r) => match parseKey fuel r with | some (b, r') => some (.or a b, r') | none => none
+      | none => none
+    | "and" => match rest with
+      | n :: r =>
+        let rec go (fuel : Nat) (k : Nat) (acc : List Search.Key) (r : List String) : Option (List Search.Key × List String) :=
+          match fuel, k with
+          | _, 0 => some (acc.reverse, r)
+          | 0, _ => none
+          | f + 1, k + 1 => match parseKey f r with | some (x, r') => go f k (x :: acc) r' | none => none
+        match go fuel n.toNat! [] r with | some (ks, r') => some (.keyset ks, r') | none => none
+      | _ => none
+    | _ => none
+
+def parseKeys (fuel : Nat) (toks : List String) : List Search.Key :=
+  match fuel with
+  | 0 => []
+  | f + 1 => match toks with
+    | [] => []
+    | _ => match parseKey 64 toks with
+      | some (k, r) => k :: parseKeys f r
+      | none => []
+
+def parseSMsg (t : String) : Option Search.Msg :=
+  match t.splitOn "," with
+  | [sq, u, fl, idt, sd, sz, orc] =>
+    let ids := dotNats orc
+    some { seq := sq.toNat!, uid := u.toNat!, flags := dotNats fl, idate := Int.ofNat idt.toNat!,
+           sdate := if sd == "-" then none else some (Int.ofNat sd.toNat!), size := sz.toNat!, oracle := fun i => ids.contains i }
+  | _ => none
+
 def srvOut (st : DState) (r : Server.Srv × Server.Resp) : DState × String := ({ st with srv := r.1 }, showResp r.2)
 
 /-- `sync add <uid>:<flags>;... | <expunged> | <hide>`  then  `sync fork <hide> <withUid>` -/
@@ -134,6 +183,10 @@ def handle (st : DState) (line : String) : DState × String :=
       | none => []
       | some p => Sync.compare p fr (hide == "1") [] (wu == "1") false
     ({ st with prev := some fr }, if out.isEmpty then "-" else " ".intercalate (out.map showUntagged))
+  | "search" :: mxs :: mxu :: msgs :: keys =>
+    let view := if msgs == "-" then [] else (msgs.splitOn ";").filterMap parseSMsg
+    let ks := parseKeys 64 keys
+    (st, showNats ((Search.search view mxs.toNat! mxu.toNat! ks).map (·.uid)))
   | ["layout", kind, name] =>
     -- name: code points; delimiter '/'; prints REJECT or the lexically resolved path below the user directory
     let parts := Layout.splitOn Layout.slash (parseNats name)
